@@ -11,7 +11,11 @@ from vf.engine import Ctx, Property
 RT = 1e-13
 
 
-def close(a, b, rtol=RT):
+_CASE_RT = [RT]  # tolerance of the case being checked (float32 arguments are judged at float32 resolution)
+
+
+def close(a, b, rtol=None):
+    rtol = _CASE_RT[0] if rtol is None else max(rtol, _CASE_RT[0])
     a = np.asarray(a, float)
     b = np.asarray(b, float)
     if a.shape != b.shape:
@@ -49,26 +53,36 @@ def specs(draw):
             chain.append(draw(_value))
         else:
             chain.append(10.0 ** draw(st.floats(-30, -7, allow_nan=False)))
-    return {"dim": dim, "layout": layout, "values": vals, "position": pos, "cls": cls, "volume_chain": chain, "start_radius": draw(_value)}
+    spec = {"dim": dim, "layout": layout, "values": vals, "position": pos, "cls": cls, "volume_chain": chain, "start_radius": draw(_value)}
+    # argument type: mostly float64; sometimes float32 arrays or (small) integers, which the conversions accept as well
+    dt = draw(st.sampled_from(["float64"] * 6 + ["float32", "int"]))
+    if dt == "float32" and layout != "scalar":
+        spec["dtype"] = "float32"
+        spec["values"] = [float(np.float32(min(max(v, 1e-12), 1e12))) if v > 0 else 0.0 for v in vals]
+    elif dt == "int":
+        spec["dtype"] = "int"
+        spec["values"] = [float(draw(st.integers(0, 1000))) for _ in vals]
+    return spec
 
 
 class C12(Property):
     id = "C12"
     rule = (
-        "Hypothesis draws dim in 1..3, an argument layout (python float, 0-d, 1-d, 2-d array) and values "
+        "Hypothesis draws dim in 1..3, an argument layout (python float, 0-d, 1-d, 2-d array; float64, sometimes float32 or small integers) and values "
         "10^U(-15,15), 0, small floats and small integers; every conversion variant (plain, dimension-"
         "specialised compiled, dimension-generic compiled from an njit wrapper, py-pde volume_from_radius, "
         "droplet properties/setters/from_volume, incl. chains of volume assignments with nearly equal and tiny values on a droplet in an arbitrary prior state) is compared with textbook formulas, round trips and r*S=d*V. "
         "Non-trivial = some value outside [0.1, 10] or an array argument; distinct = distinct spec hash."
     )
     assumptions = [
-        "numpy/numba floating point; tolerances rtol 1e-13 (round trips, variant agreement), 1e-7 (finite-difference derivative)",
+        "numpy/numba floating point; tolerances rtol 1e-13 (round trips, variant agreement), 1e-7 (finite-difference derivative); float32 arguments are judged with rtol 3e-6",
+        "integer arguments are generated up to 1000 (numpy integer arithmetic wraps silently beyond 2^63, e.g. r**3 for r > 2e6; that is numpy's documented behaviour, not a property of these formulas)",
         "symbolic 'for all positive reals' is not reachable by search: 30 decades sampled numerically",
         "curvature of a radius-0 droplet (1/0) is not judged",
     ]
 
     def budget(self, tier):
-        return {"examples": 1600 if tier == "quick" else 80000, "shards": 8 if tier == "quick" else 16}
+        return {"examples": 3200 if tier == "quick" else 80000, "shards": 8 if tier == "quick" else 16}
 
     def strategy(self, tier):
         return specs()
@@ -113,16 +127,19 @@ class C12(Property):
         dim = spec["dim"]
         layout = spec["layout"]
         vals = np.array(spec["values"], float)
+        dt = spec.get("dtype", "float64")
+        np_dt = {"float64": np.float64, "float32": np.float32, "int": np.int64}[dt]
+        _CASE_RT[0] = 3e-6 if dt == "float32" else RT
         if layout == "scalar":
-            x = float(vals[0])
+            x = int(vals[0]) if dt == "int" else float(vals[0])
         elif layout == "0d":
-            x = np.array(vals[0])
+            x = np.array(vals[0], dtype=np_dt)
         elif layout == "1d":
-            x = vals.copy()
+            x = vals.astype(np_dt)
         else:
-            x = vals.reshape(-1, 1).copy()
+            x = vals.reshape(-1, 1).astype(np_dt)
         is_arr = isinstance(x, np.ndarray)
-        ctx.cls(f"dim{dim}", f"layout:{layout}")
+        ctx.cls(f"dim{dim}", f"layout:{layout}", f"dtype:{dt}")
         if is_arr or np.any(vals < 0.1) or np.any(vals > 10):
             ctx.nontrivial = True
         if np.any(vals == 0):
@@ -147,8 +164,9 @@ class C12(Property):
             "pde.volume_from_radius": S.volume_from_radius(x, dim),
             "make_volume_from_radius_compiled": vfr_c(x),
             "volume_nd(py)": self.nd_py[1](x, dim),
-            "volume_nd(njit)": self.nd_jit[1](x, dim),
         }
+        if dt == "float64":  # with a run-time dimension numba can only unify the branches for float64 arguments
+            vol_variants["volume_nd(njit)"] = self.nd_jit[1](x, dim)
         for name, out in vol_variants.items():
             shape_ok(name, out)
             ctx.require(close(out, V_ref), f"value:{name}:dim{dim}", f"{name}({x!r},{dim})={out!r} expected {V_ref!r}")
@@ -177,8 +195,9 @@ class C12(Property):
             "radius_from_volume": lambda v: S.radius_from_volume(v, dim),
             "make_radius_from_volume_compiled": rfv_c,
             "radius_nd(py)": lambda v: self.nd_py[0](v, dim),
-            "radius_nd(njit)": lambda v: self.nd_jit[0](v, dim),
         }
+        if dt == "float64":
+            rad_variants["radius_nd(njit)"] = lambda v: self.nd_jit[0](v, dim)
         Vx = S.volume_from_radius(x, dim)
         for name, f in rad_variants.items():
             back = f(Vx)
